@@ -64,6 +64,8 @@ impl<T> EventSource for Park<'_, T> {
         // register the coroutine
         let wait_co = &self.queue.wait_co;
         wait_co.store(Blocker::new_coroutine(co));
+        #[cfg(may_verif)]
+        crate::verif::label("spsc.subscribe.stored", 0);
         // re-check the state, only clear once after resume
         if !self.queue.queue.is_empty() {
             if let Some(co) = wait_co.take() {
@@ -113,6 +115,8 @@ impl Blocker {
             get_scheduler().schedule(co);
         } else {
             let thread = self.into_thread();
+            #[cfg(may_verif)]
+            crate::verif::pre_unpark(&thread);
             thread.unpark();
         }
     }
@@ -175,6 +179,8 @@ impl<T> InnerQueue<T> {
                     match self.try_recv() {
                         Err(TryRecvError::Empty) => {
                             // no data, wait for it
+                            #[cfg(may_verif)]
+                            crate::verif::pre_park();
                             std::thread::park();
                         }
                         data => {
@@ -207,6 +213,8 @@ impl<T> InnerQueue<T> {
     }
 
     fn drop_chan(&self) {
+        #[cfg(may_verif)]
+        crate::verif::label("spsc.drop_chan", 0);
         self.channels.store(0, Ordering::Relaxed);
         if let Some(co) = self.wait_co.take() {
             co.unpark();
